@@ -227,6 +227,11 @@ def run(p: Program, rep: Report, tier: str) -> None:
     rep.extra["allowed_escapes_seen"] = n_allowed
     for (exc, cons), d in sorted(by_construct.items()):
         it: Esc = d["item"]
+        if any(str(o_).startswith("~") for o_ in d["origins"]) or "~*-spread" in it.why:
+            # the operand is client-derived only if the tainted ELEMENT of a `f(*seq)` call is the one bound to this parameter, which
+            # the taint analysis could not tell (seq comes out of a function / is built element by element elsewhere)
+            rep.undecide("R12.1", f"{exc} at {cons}: the operand counts as client-derived only through an imprecise `*sequence` argument binding ({it.why[:120]})")
+            continue
         rep.violation("R12.1", f"{cons} -> {exc}", it.where,
                       f"{exc} can escape to the caller: {it.why}", escapes_from=sorted(d["entries"]), operation=it.op, exception=exc, origins=sorted(d["origins"]))
     # every (entry point) with no disallowed escape is one discharged obligation
